@@ -131,7 +131,7 @@ func buildHost(tape *sim.Tape, bad bool) *c11Host {
 		badAt = tape.Draw(n)
 	}
 	for i := 0; i < n; i++ {
-		k := tape.Draw(13)
+		k := tape.Draw(15)
 		if i == badAt {
 			k = []int{0, 2}[tape.Draw(2)]
 		}
@@ -181,6 +181,11 @@ func buildHost(tape *sim.Tape, bad bool) *c11Host {
 			s.End = doc.Len()
 			doc.WriteString([]string{"\">\n", "\">z</a>\n"}[k-10])
 			h.Slots = append(h.Slots, s)
+		case 13, 14:
+			// a typed raw element WITHOUT content (external resource): nothing is dispatched for
+			// it, and its type must not leak into the next raw element
+			doc.WriteString([]string{"<script type=\"text/template\" src=\"t.tpl\"></script>\n", "<script type=\"application/ld+json\" src=\"d.json\"></script>\n",
+				"<script type=\"module\" src=\"m.js\"></script>\n", "<style type=\"text/x-unknown\"></style>\n"}[tape.Draw(4)])
 		case 12:
 			// nested: HTML -> inline SVG (real svg minifier) -> CSS
 			inner := pick("text/css")
